@@ -16,12 +16,21 @@ ScDesc ==
                                                   MapF("g", One("y"), One("w"), One(Spec1("y", <<"i", ":">>)), One("i"))>>]
       [] Scenario = "multi"    -> [funcs |-> <<MapF("f", One("a"), <<"y", "y2">>, One(Spec1("a", One("i"))), One("i")),
                                                MapF("g", <<"y2", "b">>, One("w"), <<Spec1("y2", One("i")), Spec1("b", One("j"))>>, <<"j", "i">>)>>]
+      (* an internal axis in front of the partitioned axis *)
+      [] Scenario = "internalfirst" -> [funcs |-> <<MkFunc("f", One("a"), One("y"), TRUE, One(Spec1("a", One("i"))), <<"n", "i">>, One(2)),
+                                                    MapF("g", One("y"), One("w"), One(Spec1("y", <<"n", "i">>)), <<"n", "i">>)>>]
+      (* fan-out: the element-wise consumer is listed before the reducing one: axis i is reduced, every request on it is invalid *)
+      [] Scenario = "fanout"   -> [funcs |-> <<MapF("f", One("a"), One("y"), One(Spec1("a", One("i"))), One("i")),
+                                               MapF("g", One("y"), One("w"), One(Spec1("y", One("i"))), One("i")),
+                                               PlainF("h", One("y"), One("r"))>>]
 ScInputs ==
     CASE Scenario = "outer"       -> <<<<"a", InArr("a", One(3))>>, <<"b", InArr("b", One(2))>>>>
       [] Scenario = "zip"         -> <<<<"a", InArr("a", One(3))>>, <<"b", InArr("b", One(3))>>>>
       [] Scenario = "consumer"    -> <<<<"a", InArr("a", One(3))>>, <<"b", InArr("b", One(2))>>, <<"s", Atom("@s")>>>>
       [] Scenario = "reduceother" -> <<<<"a", InArr("a", One(3))>>, <<"b", InArr("b", One(2))>>>>
       [] Scenario = "multi"       -> <<<<"a", InArr("a", One(3))>>, <<"b", InArr("b", One(2))>>>>
+      [] Scenario = "internalfirst" -> One(<<"a", InArr("a", One(3))>>)
+      [] Scenario = "fanout"      -> One(<<"a", InArr("a", One(3))>>)
 Axis == "i"
 N == 3
 
@@ -32,13 +41,15 @@ Sel(k) == {KeyIndices(k, N)[m] : m \in DOMAIN KeyIndices(k, N)}
 NonEmpty == {k \in Keys : Sel(k) # {}}
 All == 0..(N - 1)
 
-Parts == {<<k1>> : k1 \in {k \in NonEmpty : Sel(k) = All}}
+PartsAll == {<<k1>> : k1 \in {k \in NonEmpty : Sel(k) = All}}
          \cup {p \in NonEmpty \X NonEmpty : Sel(p[1]) \cap Sel(p[2]) = {} /\ Sel(p[1]) \cup Sel(p[2]) = All}
          \cup {p \in IntKeys \X IntKeys \X IntKeys :
                   Sel(p[1]) \cap Sel(p[2]) = {} /\ Sel(p[1]) \cap Sel(p[3]) = {} /\ Sel(p[2]) \cap Sel(p[3]) = {}
                   /\ Sel(p[1]) \cup Sel(p[2]) \cup Sel(p[3]) = All}
+Parts == IF Scenario = "fanout" THEN {} ELSE PartsAll
 Rejects == {<<"i", <<"int", N, 0, 0>>>>, <<"i", <<"int", -N - 1, 0, 0>>>>, <<"nope", <<"int", 0, 0, 0>>>>}
            \cup (IF Scenario = "reduceother" THEN {<<"j", <<"int", 0, 0, 0>>>>} ELSE {})
+           \cup (IF Scenario = "fanout" THEN {<<"i", <<"int", 0, 0, 0>>>>, <<"i", <<"slice", 0, 2, NoneMark>>>>} ELSE {})
 
 Init == case \in [kind : {"parts"}, parts : Parts, req : {<<"", <<"int", 0, 0, 0>>>>}]
                  \cup [kind : {"reject"}, parts : {<<>>}, req : Rejects]
